@@ -115,6 +115,34 @@ Proof.
   repeat split; auto; try (rewrite <- Jn; reflexivity).
 Qed.
 
+(* ---------- compact: the converse -- every five-segment string whose parts pass each stage is accepted, so the
+   conditions of compact_accept_sound_l characterise acceptance exactly ---------- *)
+Theorem compact_accept_complete_l allow ps eks ivs cts tags ek iv ct tag alg enc zip k cek msg rawkey h payload :
+  nodot ps -> nodot eks -> nodot ivs -> nodot cts -> nodot tags ->
+  extract_hdr ps = EOk h ->
+  urlsafe_b64decode eks = Some ek -> urlsafe_b64decode ivs = Some iv -> urlsafe_b64decode cts = Some ct ->
+  urlsafe_b64decode tags = Some tag ->
+  header_alg allow h = EOk alg -> header_enc allow h = EOk enc -> header_zip allow h = EOk zip ->
+  prepare_key alg (effective_key h rawkey) = Some k ->
+  unwrap alg enc ek h k = Some cek ->
+  decrypt enc cek iv ps ct tag = Some msg ->
+  finish zip msg = EOk payload ->
+  deserialize_compact allow (ps ++ "." ++ eks ++ "." ++ ivs ++ "." ++ cts ++ "." ++ tags)%string rawkey = EOk (h, payload).
+Proof.
+  intros N1 N2 N3 N4 N5 EH D1 D2 D3 D4 HA HE HZ PK UW DE FI. unfold JWE.deserialize_compact.
+  rewrite (split_dots_app _ _ N1), (split_dots_app _ _ N2), (split_dots_app _ _ N3), (split_dots_app _ _ N4).
+  rewrite (split_dots_nodot _ N5). rewrite EH. unfold extract_seg. rewrite D1, D2, D3, D4.
+  rewrite HA, HE, HZ, PK, UW, DE, FI. reflexivity.
+Qed.
+
+(* a serialization that does not consist of exactly five dot-separated segments is refused before any key is touched *)
+Theorem compact_segment_count_l allow s rawkey :
+  List.length (split_dots s) <> 5%nat -> deserialize_compact allow s rawkey = EErr (EDecode "segments").
+Proof.
+  unfold JWE.deserialize_compact. intros L.
+  destruct (split_dots s) as [|a [|b [|c [|d [|e [|x l]]]]]]; try reflexivity. cbn in L. congruence.
+Qed.
+
 (* alg / enc / zip are the header's, allow-listed and registered *)
 Lemma header_alg_sound allow h a : header_alg allow h = EOk a ->
   dict_get "alg" h = Some (PStr a) /\ alg_registered a = true /\ allowed allow a = true.
